@@ -43,6 +43,10 @@ def run(ctx):
     from vf import purity
     _rec = purity.Recorder(vu, ['convert_version_to_int', 'convert_version_to_str', 'convert_version_to_tuple', 'is_compatible'], every=1)
     _rec.__enter__()
+    # ... and one predicate OBJECT asked by several callers: the recorder keeps the object, so that the order / thread
+    # replay asks the very same predicates again
+    _recp = purity.Recorder(vu.VersionPredicate, ['satisfied_by'], every=1)
+    _recp.__enter__()
     quick = ctx.quick
     ctx.assumptions += ['components >= 1000 are outside the statement (the radix-1000 encoding is not injective there)',
                         'big-number arithmetic is Python on both sides: the spec carries the base-1000 digit sequence',
@@ -154,6 +158,11 @@ def run(ctx):
         obj = call(vu.VersionPredicate, text)
         if obj[0] != 'ok':
             continue
+        pred = getattr(obj[1], 'pred', None)
+        if not isinstance(pred, list) or any(not (isinstance(e, tuple) and len(e) == 2 and isinstance(e[0], str)) for e in pred):
+            # which attributes a predicate object has is not in the statement; callers print .pred back as text
+            ctx.beyond('Versions', {'kind': 'predicate-pred-attribute'}, {'predicate': text, 'observed': repr(pred)[:300]},
+                       'VersionPredicate(%r).pred is %s; the module keeps a list of (operator text, version) pairs' % (text, repr(pred)[:200]))
         seq = sorted(set(lst))
         for cand, want in seq + seq[::-1] + seq[::2] + seq[1::2]:
             ru += 1
@@ -174,7 +183,7 @@ def run(ctx):
     # random components 0..999 at gamma level: round trip and order on equal length
     z = 0
     for j in range(20000 if quick else 400000):
-        ln = rnd.randint(1, 5)
+        ln = rnd.randint(1, 5) if j % 4 else rnd.randint(6, 9)      # every fourth version is a long one
         a = [rnd.randint(1, 999)] + [rnd.choice([0, 1, 9, 10, 99, 100, 999, rnd.randint(0, 999)]) for _ in range(ln - 1)]
         b = list(a)
         i = rnd.randrange(ln)
@@ -194,6 +203,8 @@ def run(ctx):
     ctx.stage('random-components', cases=z)
     _rec.__exit__()
     _rec.replay(ctx, 'c17')
+    _recp.__exit__()
+    _recp.replay(ctx, 'predicates')
     # binding self-test: a wrong radix must be exposed
     import functools
     wrong = functools.reduce(lambda x, y: (x * 100) + y, (1, 2, 3))
